@@ -24,8 +24,9 @@
                     elements and the document, whose string-value the model computes from the
                     children as [AsStringValue for XmlElement] does.
 
-    The sibling navigation of the pinned dom (look the node up among the children of its parent
-    BY ORDER KEY, defect D21) is modelled as it is.  No proofs in this file. *)
+    The sibling navigation of the dom (look the node up among the children of its parent by
+    [id()]; it was by order key on the pinned tree, defect D21, repaired) is modelled as it is.
+    No proofs in this file. *)
 From Coq Require Import List NArith Bool.
 From XmlRs Require Import Base.CPred.
 Import ListNotations.
@@ -86,12 +87,12 @@ Definition doc_root : node := 0.
 
 (** ** results *)
 Inductive xerr :=
-| EDom
-| EInvalidType
-| EInvalidArgumentCount (s : str)
-| ENotFoundFunction (s : str)
-| ENotFoundNamespace (s : str)
-| ENotFoundVariable (s : str).
+| XErrDom
+| XErrInvalidType
+| XErrInvalidArgumentCount (s : str)
+| XErrNotFoundFunction (s : str)
+| XErrNotFoundNamespace (s : str)
+| XErrNotFoundVariable (s : str).
 
 (** [Panic]: the Rust code unwinds ([unwrap] on [None]/[Err], [unimplemented!]).
     [OutOfFuel]: a navigation loop did not end within the fuel (a hang of the real code when
@@ -114,14 +115,14 @@ Definition bind {A B} (r : res A) (f : A -> res B) : res B :=
 (** the default fuel of every navigation loop: more than the number of rows *)
 Definition nav_fuel (doc : xdoc) : nat := S (length doc).
 
-(** ** sibling navigation (dom [previous_sibling] / [next_sibling], pinned code)
+(** ** sibling navigation (dom [previous_sibling] / [next_sibling])
 
     [self.parent_node().and_then(|parent| parent.next_sibling_child(self))] for elements, text,
     CDATA, references, PIs, comments, the doctype and merged text; [None] for the document,
     attributes, namespace nodes (entities, notations and fragments are never reached by the
     evaluator).  [next_sibling_child]: the parent must be an element, attribute, reference,
     entity, document or fragment; then
-    [children.iter().skip_while(|v| v.order() != node.order()).nth(1)]. *)
+    [children.iter().skip_while(|v| v.id() != node.id()).nth(1)]. *)
 Definition sibling_nav_kind (k : nkind) : bool :=
   match k with
   | KElement | KText | KCData | KEntityReference | KPI | KComment | KDocumentType
@@ -135,10 +136,12 @@ Definition has_child_list (k : nkind) : bool :=
   | _ => false
   end.
 
-Fixpoint skip_while_key (doc : xdoc) (k : N) (l : list node) : list node :=
+Definition nid (doc : xdoc) (i : node) : N := n_id (getd doc i).
+
+Fixpoint skip_while_id (doc : xdoc) (k : N) (l : list node) : list node :=
   match l with
   | [] => []
-  | x :: t => if key doc x =? k then l else skip_while_key doc k t
+  | x :: t => if nid doc x =? k then l else skip_while_id doc k t
   end.
 
 Definition nth1 (l : list node) : option node :=
@@ -147,7 +150,7 @@ Definition nth1 (l : list node) : option node :=
 Definition sibling_child (doc : xdoc) (rev_order : bool) (p i : node) : option node :=
   if has_child_list (kind doc p) then
     let l := child_nodes doc p in
-    nth1 (skip_while_key doc (key doc i) (if rev_order then rev l else l))
+    nth1 (skip_while_id doc (nid doc i) (if rev_order then rev l else l))
   else None.
 
 Definition next_sibling (doc : xdoc) (i : node) : option node :=
@@ -187,7 +190,7 @@ Fixpoint concat_res (l : list (res str)) : res str :=
 Definition data_res (d : xdata) : res str :=
   match d with
   | DataStr s => Ok s
-  | DataErr => Err EDom
+  | DataErr => Err XErrDom
   | DataComputed => Ok []      (* not used for elements / documents *)
   end.
 
@@ -205,7 +208,7 @@ Fixpoint string_value_fuel (fuel : nat) (doc : xdoc) (i : node) : res str :=
       | KDocument | KDocumentFragment =>
           match find (fun c => nkind_eqb (kind doc c) KElement) (child_nodes doc i) with
           | Some e => string_value_fuel f doc e
-          | None => Err EDom
+          | None => Err XErrDom
           end
       | KEntityReference | KEntity | KDocumentType | KNotation => Ok []
       | _ => data_res (n_data (getd doc i))
